@@ -832,6 +832,67 @@ theorem addRecorders_fields : ∀ (rs : List Recorder) (c : Conn),
     simp only [Conn.addRecorders]
     exact ⟨b1.trans a1, b2.trans a2, b3.trans a3, b4.trans a4⟩
 
+/-! ### request length and debug items -/
+
+/-- the finally clause touches neither last_request_len nor the debug items -/
+theorem finallyPart_keeps (v : Variant) (call : Call) (ev : List Event) (b : OpResult) :
+    (finallyPart v call ev b).conn.lastRequestLen = b.conn.lastRequestLen ∧
+    (finallyPart v call ev b).conn.lastRequestXmlSet = b.conn.lastRequestXmlSet ∧
+    (finallyPart v call ev b).conn.lastReplyXmlSet = b.conn.lastReplyXmlSet ∧
+    (finallyPart v call ev b).conn.debug = b.conn.debug := by
+  simp only [finallyPart]
+  cases b.conn.stats.stopTimer call.method b.conn.lastRequestLen b.conn.lastReplyLen b.conn.lastSrvTime
+      (failedOf b.outcome) with
+  | error e => (refine ⟨?_, ?_, ?_, ?_⟩ <;> first | rfl | trivial)
+  | ok st =>
+    simp only
+    by_cases he : b.conn.recorders.isEmpty = true
+    · simp only [he, if_true]; (refine ⟨?_, ?_, ?_, ?_⟩ <;> first | rfl | trivial)
+    · simp only [he, Bool.false_eq_true, if_false]
+      rcases forRecs (stageResultOne v (retOf call b.outcome) (excOf b.outcome)) b.conn.recorders with ⟨r3, e3, x3⟩
+      cases x3 <;> (refine ⟨?_, ?_, ?_, ?_⟩ <;> first | rfl | trivial)
+
+/-- what the try body does to last_request_len and the debug items (any variant, any recorders) -/
+theorem tryBody_debug (v : Variant) (c : Conn) (b64 : Str → Str) (core : Core) (l : Bool) :
+    (tryBody v c b64 core l).conn.debug = c.debug ∧
+    (∀ e, core.prep = .error e →
+      (tryBody v c b64 core l).conn.lastRequestLen = c.lastRequestLen ∧
+      (tryBody v c b64 core l).conn.lastRequestXmlSet = c.lastRequestXmlSet ∧
+      (tryBody v c b64 core l).conn.lastReplyXmlSet = c.lastReplyXmlSet) ∧
+    (∀ req, core.prep = .ok req →
+      (tryBody v c b64 core l).conn.lastRequestLen = req.data.length ∧
+      (c.debug = false → (tryBody v c b64 core l).conn.lastRequestXmlSet = c.lastRequestXmlSet ∧
+                         (tryBody v c b64 core l).conn.lastReplyXmlSet = c.lastReplyXmlSet) ∧
+      (c.debug = true → (tryBody v c b64 core l).conn.lastRequestXmlSet = true)) := by
+  cases hp : core.prep with
+  | error e =>
+    simp only [tryBody, hp]
+    refine ⟨by first | rfl | trivial, ?_, ?_⟩
+    · intro _ _; refine ⟨?_, ?_, ?_⟩ <;> first | rfl | trivial
+    · intro _ h; cases h
+  | ok req =>
+    simp only [tryBody, hp]
+    refine ⟨?_, ?_, ?_⟩
+    · cases (wbemRequest v c.recorders c.info.creds b64 core req l).result with
+      | error e => first | rfl | trivial
+      | ok p => obtain ⟨reply, srv⟩ := p; simp only []; cases core.parse reply <;> first | rfl | trivial
+    · intro e h; cases h
+    · intro req' hreq
+      simp only [Except.ok.injEq] at hreq
+      subst hreq
+      cases (wbemRequest v c.recorders c.info.creds b64 core req l).result with
+      | error e =>
+        refine ⟨by first | rfl | trivial, ?_, ?_⟩
+        · intro hd; simp [hd]
+        · intro hd; simp [hd]
+      | ok p =>
+        obtain ⟨reply, srv⟩ := p
+        simp only []
+        cases core.parse reply <;>
+          (refine ⟨by first | rfl | trivial, ?_, ?_⟩
+           · intro hd; simp [hd]
+           · intro hd; simp [hd])
+
 /-! ### inputs of the negation witnesses in Props/C19.lean -/
 
 /-- a core that succeeds: request built, HTTP 200, reply parsed to `ret` -/
